@@ -149,7 +149,7 @@ func (w *World) packageFuncs() []*ssa.Function {
 	return fns
 }
 
-func (w *World) fieldAccesses(fn *ssa.Function) []fieldAccess {
+func (w *World) fieldAccessesRaw(fn *ssa.Function) []fieldAccess {
 	var out []fieldAccess
 	for _, b := range fn.Blocks {
 		for _, in := range b.Instrs {
@@ -384,7 +384,7 @@ func (f *Frame) ownerObl(x *ssa.FieldAddr, base Val, reach string, st *State) {
 	fname := s.Field(x.Field).Name()
 	rule, ok := w.db.Owners[sn][fname]
 	if !ok {
-		rule = ownerRule{Kind: "undeclared"}
+		rule = w.inferOwner(sn, fname)
 	}
 	a := fieldAccess{fn: f.fn, in: x, sname: sn, field: fname, store: addrIsStored(x), rule: rule}
 	v := ownerVerdict(e.roles[f.fn], a)
@@ -509,4 +509,64 @@ func (w *World) hasInlinedHelpers(key string) bool {
 		}
 	}
 	return false
+}
+
+// fieldAccesses: as declared, and for fields of an owned struct that have no
+// declaration (a field added later) the owner is inferred from the uses: never
+// stored outside construction -> const; touched by one side only -> that side;
+// anything else stays undeclared and is reported.
+func (w *World) fieldAccesses(fn *ssa.Function) []fieldAccess {
+	accs := w.fieldAccessesRaw(fn)
+	for i := range accs {
+		if accs[i].rule.Kind == "undeclared" {
+			accs[i].rule = w.inferOwner(accs[i].sname, accs[i].field)
+		}
+	}
+	return accs
+}
+
+func (w *World) inferOwner(sname, field string) ownerRule {
+	if w.inferred == nil {
+		w.inferred = map[string]ownerRule{}
+		roles := w.inferRoles()
+		type use struct{ roles map[string]bool; stored bool }
+		uses := map[string]*use{}
+		for _, fn := range w.packageFuncs() {
+			for _, a := range w.fieldAccessesRaw(fn) {
+				if a.rule.Kind != "undeclared" {
+					continue
+				}
+				k := a.sname + "." + a.field
+				u := uses[k]
+				if u == nil {
+					u = &use{roles: map[string]bool{}}
+					uses[k] = u
+				}
+				r := roles[fn]
+				if r == "init" {
+					continue
+				}
+				u.roles[r] = true
+				if a.store {
+					u.stored = true
+				}
+			}
+		}
+		for k, u := range uses {
+			switch {
+			case !u.stored:
+				w.inferred[k] = ownerRule{Kind: "const"}
+			case len(u.roles) == 1 && u.roles["reader"]:
+				w.inferred[k] = ownerRule{Kind: "reader"}
+			case len(u.roles) == 1 && u.roles["writer"]:
+				w.inferred[k] = ownerRule{Kind: "writer"}
+			default:
+				w.inferred[k] = ownerRule{Kind: "undeclared"}
+			}
+		}
+	}
+	if r, ok := w.inferred[sname+"."+field]; ok {
+		return r
+	}
+	return ownerRule{Kind: "undeclared"}
 }
